@@ -402,7 +402,10 @@ pub fn gen(r: &mut Rng, cases: usize, size: usize, extra: &[String], out: &mut O
     }
     for case in 0..cases {
         out.line(&format!("case adf-{profile}-{case}"));
-        let (n, acs): (usize, Vec<F>) = if profile == "wideund" {
+        let (n, acs): (usize, Vec<F>) = if profile == "presentwide" {
+            let n = r.range(65.min(maxn), maxn);
+            (n, gen_wide(r, n))
+        } else if profile == "wideund" {
             // many UNDECIDED statements (self support, mutual attack, parity): the enumerations are
             // astronomically large, only their first element is asked for
             let n = r.range(30.min(maxn), maxn);
@@ -602,9 +605,9 @@ pub fn gen(r: &mut Rng, cases: usize, size: usize, extra: &[String], out: &mut O
                     out.line("cliq naive");
                 }
             }
-            "present" => {
+            "present" | "presentwide" => {
                 // metamorphic presentations of the same framework: fact order x sorting x naming x layout
-                for _ in 0..5 {
+                for _ in 0..(if profile == "present" { 5 } else { 2 }) {
                     let mut perm: Vec<usize> = (0..2 * n).collect();
                     for i in (1..perm.len()).rev() {
                         perm.swap(i, r.usize(i + 1));
